@@ -102,20 +102,25 @@ def c09(report, cfg):
         nkey = "%s::new@%s" % (name, cfg)
 
         def go_new():
+            # behavioural, not representational: new(key) followed by encrypt_block = Threefish with tweak (0, 0)
             bv.reset()
             it = Interp(f, MODELS)
             nb = nw * 8
             kbits, kcell = bytes_cell(it, "key", nb)
             nw_inst = find(f, r"^<threefish_cipher::%s as cipher::block::NewBlockCipher>::new$" % name)
+            enc = find(f, r"^<threefish_cipher::%s as cipher::block::BlockEncrypt>::encrypt_block$" % name)
             fish = it.call_instance(nw_inst, [Ptr(kcell, ())])
-            rty = f.instances[nw_inst]["body"]["locals"][0]
-            got = it.to_bits(fish, rty)
-            ks = TF.subkeys(nw, TF.le_words(kbits), bv.const(0, 64), bv.const(0, 64))
-            exp = bv.concat(w for row in ks for w in row)
+            fcell = it.new_cell(fish, "fish")
+            bbits, bcell = bytes_cell(it, "block", nb)
+            it.call_instance(enc, [Ptr(fcell, ()), Ptr(bcell, ())])
+            got = cell_bytes(bcell)
+            exp = TF.encrypt(nw, kbits, bv.const(0, 64), bv.const(0, 64), bbits)
+            if assert_audit(it, report, "R9.2", nkey):
+                return
             if got == exp:
                 report.ok("R9.2", nkey)
             else:
-                report.violated("R9.2", nkey, "%s::new does not build the key schedule for tweak (0,0)" % name, graphs=(got, exp))
+                report.violated("R9.2", nkey, "%s::new(key) does not give the cipher with tweak (0,0): encryption differs from Skein 1.3 Threefish" % name, graphs=(got, exp))
         engine_guard(go_new, report, "R9.2", nkey)
 
 
@@ -236,7 +241,8 @@ def only_beyond_format_limit(a, top_inputs, trials=40, seed=5):
             for n, w in widths.items():
                 v = (1 << w) - 1 if mode == "ones" else (0 if mode == "zero" else rnd.choice([rnd.getrandbits(w), (1 << w) - 1, (1 << w) - 1 - rnd.getrandbits(3)]))
                 if n in top_inputs:
-                    v &= (1 << (w - 2)) - 1 if w > 2 else 0
+                    clear = top_inputs[n] if isinstance(top_inputs, dict) else 2
+                    v &= (1 << (w - clear)) - 1 if w > clear else 0
                 env[n] = v
             cases.append(env)
     for env in cases:
